@@ -82,7 +82,7 @@ def build(ctx, rng, refworld, n, subdir='queries', int_ids=False, name_offset=0)
 	bdata = G.gz_bytes(G.fasta_bytes(bc))
 	pool.broken = G.write_file(os.path.join(root, 'broken', 'cut.fasta.gz'), bdata[:len(bdata) * 3 // 4])
 	if int_ids:
-		ids = np.array([100 + 3 * i for i in range(n)], dtype=np.int64)
+		ids = np.array([0 + 3 * i for i in range(n)], dtype=np.int64)      # includes the id 0
 	else:
 		ids = np.array([g['stem'] for g in pool.genomes], dtype=object)
 	pool.sig_ids = [x.item() if hasattr(x, 'item') else x for x in ids]
